@@ -180,7 +180,7 @@ def impl_level(rep, impl):
     with tlc.Scratch() as s:
         for (n, rate), traces in sorted(impl.items()):
             # (validation time grows steeply with the number of recordings: silent steps branch)
-            traces = traces[:600 if n <= 4 else 100]
+            traces = traces[:600 if n <= 3 else 300 if n == 4 else 40]
             for i, t in enumerate(traces):
                 t['id'] = i + 1
             name = 'MC_%s_impl_%d_%d' % (rep.prop, n, rate)
